@@ -12,7 +12,6 @@ package main
 import (
 	"fmt"
 	"os"
-	"path/filepath"
 	"strconv"
 	"strings"
 	"time"
@@ -161,29 +160,8 @@ func execTimeout(input string) string {
 	var err error
 	if opt["file"] == "1" {
 		// the application gives its configuration as a file: the timeout is what the file says
-		var sb strings.Builder
-		fmt.Fprintf(&sb, "application: verif\nmetricsprefix: verif\nshutdowntimeout: %d\nsource:\n  name: vsource\n  id: %s\nnodes:\n", timeoutSec, cfg.Source.ID)
-		var y func(n *node.Config, ind string)
-		y = func(n *node.Config, ind string) {
-			fmt.Fprintf(&sb, "%s- name: %s\n%s  id: %s\n%s  workers: %d\n%s  buffersize: %d\n", ind, n.Name, ind, n.ID, ind, n.Workers, ind, n.BufferSize)
-			if n.ErrorHandler != nil {
-				h := n.ErrorHandler
-				fmt.Fprintf(&sb, "%s  error_handler:\n%s    name: %s\n%s    id: %s\n%s    workers: %d\n%s    buffersize: %d\n", ind, ind, h.Name, ind, h.ID, ind, h.Workers, ind, h.BufferSize)
-			}
-			if len(n.Children) > 0 {
-				fmt.Fprintf(&sb, "%s  children:\n", ind)
-				for _, c := range n.Children {
-					y(c, ind+"    ")
-				}
-			}
-		}
-		for _, n := range cfg.Nodes {
-			y(n, "  ")
-		}
-		dir := filepath.Join(os.TempDir(), "fbverif-cfg")
-		_ = os.MkdirAll(dir, 0o755)
-		path := filepath.Join(dir, fmt.Sprintf("t%d-%d.yaml", os.Getpid(), run))
-		if werr := os.WriteFile(path, []byte(sb.String()), 0o644); werr != nil {
+		path, werr := writeConfigFile("t", run, yamlForConfig(cfg, false, timeoutSec))
+		if werr != nil {
 			return "harness-error " + werr.Error()
 		}
 		ex, err = executor.New(executor.WithConfigFile(path))
